@@ -62,3 +62,13 @@ Theorem C13_claim_frame_sources : forall c m c' outs x,
   snd x = c_name c /\ (fst x = addr_NULL \/ fst x = c_ann c' \/ c_addr c = Some (fst x)).
 Proof. exact claim_frames_sources. Qed.
 Print Assumptions C13_claim_frame_sources.
+
+From J1939 Require Import SkelDefs FlowDefs.
+From J1939.gen Require Import SkelGen.
+From J1939P Require Import FlowProofs OrderProofs.
+
+(* "again as soon as it has lost its address": the loss (state, address) is committed before the cannot-claim / re-claim
+   frame is handed to the bus (generated skeleton) — there is no window in which a send is still accepted *)
+Theorem C13_loss_committed_before_frame : never_commits_after_send order_ca.
+Proof. exact order_ca_ok. Qed.
+Print Assumptions C13_loss_committed_before_frame.
